@@ -395,6 +395,17 @@ fn check_anneal(c: &AnnealCase, obs: &mut Obs) -> Result<(), String> {
         obs.nontrivial();
     }
     obs.class_if(w_res < w_init, "improved");
+    // the convenience entry point (thread RNG, default parameters) on small graphs
+    if g.num_vertices() <= 7 && c.seed % 4 == 0 {
+        let t = guarded("rank_decomp", || quizx::rankwidth::rank_decomp(&g))?;
+        check_tree(&t, &g).map_err(|e| format!("rank_decomp result: {e}"))?;
+        let (bw, _) = width_score(&brute_ranks(&t, &g));
+        let mut tc = t.clone();
+        if tc.rankwidth(&g) != bw {
+            return Err("rank_decomp result reports a width that differs from brute force".into());
+        }
+        obs.class("rank_decomp");
+    }
     Ok(())
 }
 
